@@ -516,3 +516,101 @@ Theorem closed_and_stopped ttl chk st e :
   (closed st = true -> closed (fst (bstep ttl chk true st e)) = true) /\
   (stopped st <= stopped (fst (bstep ttl chk true st e)))%N.
 Proof. split; [apply closed_forever|apply stopped_monotone]. Qed.
+
+(* ====================== every message asked for is accounted for ====================== *)
+Lemma remove_first_keeps {A} (f : A -> bool) l y : In y l -> f y = false -> In y (remove_first f l).
+Proof.
+  induction l as [|x l IH]; cbn [In remove_first]; [tauto|]. intros [->|H] Hf.
+  - rewrite Hf. now left.
+  - destruct (f x); [exact H|right; now apply IH].
+Qed.
+
+(* Observe only ever appends to the queue, and every message it does not serve from the cache is waiting afterwards *)
+Lemma obs_loop_accounted chk W now ms : forall st acc st' r,
+  observe_loop chk true st ms now acc = (st', r) -> binv W st ->
+  (forall x, In x (map qid (queue st)) -> In x (map qid (queue st'))) /\
+  forall m, In m ms ->
+    (exists d, cache_get chk now (cache st) (m_id m) = Some d) \/ In (m_id m) (map qid (queue st')).
+Proof.
+  induction ms as [|m ms IH]; intros st acc st' r H Hinv; cbn [observe_loop] in H.
+  - inversion H; subst. split; [auto|intros m []].
+  - destruct (cache_get chk now (cache st) (m_id m)) as [d|] eqn:Hg.
+    + destruct (sup_ready d) eqn:Hsr.
+      * destruct (IH _ _ _ _ H Hinv) as [Hq Ha]. split; [exact Hq|].
+        intros m' [<-|Hin]; [left; eauto|now apply Ha].
+      * (* the internal-error exit cannot be taken: cached data is always ready *)
+        exfalso. destruct Hinv as (_ & _ & Hc & _). unfold inv_cache in Hc. rewrite Forall_forall in Hc.
+        destruct (cache_get_some chk _ _ _ _ Hg) as [exp [Hl _]]. apply alookup_In in Hl.
+        specialize (Hc _ Hl). cbn [fst snd] in Hc. congruence.
+    + destruct (memN (m_id m) (ids st)) eqn:Hmem.
+      * destruct (IH _ _ _ _ H Hinv) as [Hq Ha]. split; [exact Hq|].
+        intros m' [<-|Hin]; [|now apply Ha]. right. apply Hq.
+        destruct Hinv as ((_ & P) & _). apply memN_In in Hmem. eapply Permutation_in; [exact P|exact Hmem].
+      * match type of H with observe_loop _ _ ?s _ _ _ = _ => set (st2 := s) in H end.
+        assert (Hinv2 : binv W st2).
+        { destruct Hinv as ((ND & P) & (S1 & S2) & Hc & (Wk & St)).
+          assert (Hnin : ~ In (m_id m) (ids st)) by (intros Hin; apply memN_In in Hin; congruence).
+          unfold binv, inv_ids, inv_sig, inv_cache, inv_workers, st2.
+          cbn [queue ids cache idle inflight stopped signals closed].
+          repeat split; try assumption.
+          - constructor; assumption.
+          - rewrite map_app. cbn [map]. unfold qid at 2. cbn [fst].
+            etransitivity; [apply perm_skip, P|apply Permutation_cons_append].
+          - rewrite app_length. cbn [length]. lia.
+          - intros Hcl. rewrite app_length. cbn [length]. specialize (S2 Hcl). lia. }
+        destruct (IH _ _ _ _ H Hinv2) as [Hq Ha].
+        assert (Hgrow : forall x, In x (map qid (queue st)) -> In x (map qid (queue st2))).
+        { intros x Hx. unfold st2. cbn [queue]. rewrite map_app. apply in_or_app. now left. }
+        split; [intros x Hx; apply Hq, Hgrow, Hx|].
+        intros m' [<-|Hin].
+        -- right. apply Hq. unfold st2. cbn [queue]. rewrite map_app. apply in_or_app. right. now left.
+        -- destruct (Ha m' Hin) as [Hc|Hw]; [left; exact Hc|right; exact Hw].
+Qed.
+
+(* a worker pick-up moves a message from the queue to the running fetches; nothing else leaves the queue *)
+Lemma take_keeps_accounted ttl chk st id x :
+  In x (map qid (queue st)) \/ In x (inflight st) ->
+  let st' := fst (bstep ttl chk true st (BTake id)) in
+  In x (map qid (queue st')) \/ In x (inflight st').
+Proof.
+  intros H. cbn [bstep].
+  destruct (find (fun p => N.eqb (m_id (fst p)) id) (queue st)) as [[m ep]|] eqn:Hf; [|exact H].
+  destruct (N.ltb 0 (idle st) && N.ltb 0 (signals st)); [|exact H]. cbn [fst queue inflight].
+  destruct H as [H|H]; [|right; apply in_or_app; now left].
+  destruct (N.eq_dec x id) as [->|Hne]; [right; apply in_or_app; right; now left|].
+  left. apply in_map_iff in H. destruct H as [p [Hp Hin]]. apply in_map_iff. exists p. split; [exact Hp|].
+  apply remove_first_keeps; [exact Hin|]. apply N.eqb_neq. unfold qid in Hp. congruence.
+Qed.
+
+Lemma takes_keep_accounted ttl chk takes : forall st x,
+  In x (map qid (queue st)) \/ In x (inflight st) ->
+  let st' := bstate ttl chk true st (map BTake takes) in
+  In x (map qid (queue st')) \/ In x (inflight st').
+Proof.
+  induction takes as [|id takes IH]; intros st x H; [exact H|].
+  cbn [map]. cbn zeta. rewrite bstate_cons. apply IH. now apply take_keeps_accounted.
+Qed.
+
+(* in every reachable state: after Observe has answered, and after any worker pick-ups that follow, every message asked
+   for is served from the cache, waits in the queue, or is being fetched *)
+Theorem asked_is_accounted ttl chk W st ms now takes :
+  binv W st ->
+  let st1 := fst (observe chk true st ms now) in
+  let st2 := bstate ttl chk true st1 (map BTake takes) in
+  forall m, In m ms ->
+    (exists d, cache_get chk now (cache st) (m_id m) = Some d) \/
+    In (m_id m) (map qid (queue st2)) \/ In (m_id m) (inflight st2).
+Proof.
+  intros Hinv st1 st2 m Hin. unfold st1 in *. destruct (observe chk true st ms now) as [st' r] eqn:E.
+  unfold observe in E.
+  match type of E with observe_loop _ _ ?s _ _ _ = _ => assert (Hinv0 : binv W s) by exact Hinv end.
+  destruct (obs_loop_accounted chk W now ms _ _ _ _ E Hinv0) as [_ Ha].
+  destruct (Ha m Hin) as [Hc|Hq]; [left; exact Hc|right].
+  unfold st2. cbn [fst]. apply takes_keep_accounted. now left.
+Qed.
+
+Example asked_is_accounted_example :
+  let st := bstate 5 true true (binit 1) wit_hist in     (* message 1 fetched at time 10, ttl 5 *)
+  let st2 := bstate 5 true true (fst (observe true true st [wit_m1; wit_m2] 100%N)) [BTake 1%N] in
+  cache_get true 100%N (cache st) 1%N = None /\ inflight st2 = [1%N] /\ map qid (queue st2) = [2%N].
+Proof. vm_compute. repeat split. Qed.
